@@ -3,6 +3,8 @@ package sim
 import (
 	"testing"
 	"time"
+
+	"github.com/hashicorp/raft"
 )
 
 // Families maps a scheduler family name to a driver. A driver builds a cluster,
@@ -12,6 +14,303 @@ var Families = map[string]func(t *testing.T, seed int64, steps int) *Cluster{
 	"chaos": famChaos,
 	"elect": famElect,
 	"snap":  famSnap,
+	"member":    famMember,
+	"client":    famClient,
+	"verify":    famVerify,
+	"restart":   famRestart,
+	"lease":     famLease,
+	"leasequiet": famLeaseQuiet,
+	"prevote":   famPreVote,
+	"lifecycle": famLifecycle,
+	"notify":    famNotify,
+	"restore":   famRestore,
+}
+
+// famMember: membership changes racing with elections, crashes and partitions; universe of 5.
+func famMember(t *testing.T, seed int64, steps int) *Cluster {
+	opt := DefaultOptions(seed)
+	opt.Family = "member"
+	opt.Servers = []string{"n1", "n2", "n3", "n4", "n5"}
+	switch seed % 3 {
+	case 0:
+		opt.Initial = map[string]string{"n1": "V"}
+	case 1:
+		opt.Initial = map[string]string{"n1": "V", "n2": "V", "n3": "V"}
+	default:
+		opt.Initial = map[string]string{"n1": "V", "n2": "V", "n3": "V", "n4": "N"}
+	}
+	opt.ShutdownOnRemove = seed%2 == 0
+	c := NewCluster(t, opt)
+	c.Bootstrap()
+	c.StartAll()
+	w := Weights{Deliver: 40, Reply: 40, Drop: 3, LoseResp: 3, Dup: 2, Tick: 14, TickMax: 20 * time.Millisecond,
+		Apply: 5, Member: 6, MaxMember: 12, Partition: 2, Heal: 2, Crash: 1, CrashAtWrite: 1, Restart: 3, MaxCrashes: 3,
+		Transfer: 1, Verify: 1}
+	c.RandomRun(w, steps)
+	c.convergeNoExpect(500 * time.Millisecond)
+	return c
+}
+
+// convergeNoExpect: like converge but the final configuration may have removed or shut down servers,
+// so convergence is observed, not demanded.
+func (c *Cluster) convergeNoExpect(d time.Duration) {
+	c.StopFaults()
+	c.Settle("restart")
+	c.RunQuiet(d, 5*time.Millisecond)
+	c.Quiesce(false)
+}
+
+// famClient: many clients on every server while leadership moves; BatchApplyCh / BatchingFSM flavours.
+func famClient(t *testing.T, seed int64, steps int) *Cluster {
+	opt := DefaultOptions(seed)
+	opt.Family = "client"
+	opt.BatchFSM = seed%2 == 0
+	opt.BatchApplyCh = seed%3 == 0
+	opt.MaxAppend = 1 + int(seed%4)
+	c := NewCluster(t, opt)
+	c.Bootstrap()
+	c.StartAll()
+	w := Weights{Deliver: 36, Reply: 36, Drop: 3, LoseResp: 3, Dup: 1, Tick: 12, TickMax: 20 * time.Millisecond,
+		Apply: 16, Barrier: 4, Partition: 2, Heal: 2, Crash: 1, Restart: 3, MaxCrashes: 3, Transfer: 2,
+		FsmGate: 1, FsmRelease: 4, SlowWrite: 1, ReleaseWrite: 4}
+	c.RandomRun(w, steps)
+	c.converge(500 * time.Millisecond)
+	return c
+}
+
+// famVerify: VerifyLeader with voters and non-voters under partitions that leave the leader any subset.
+func famVerify(t *testing.T, seed int64, steps int) *Cluster {
+	opt := DefaultOptions(seed)
+	opt.Family = "verify"
+	switch seed % 4 {
+	case 0:
+		opt.Servers = []string{"n1", "n2", "n3", "n4"}
+		opt.Initial = map[string]string{"n1": "V", "n2": "V", "n3": "V", "n4": "N"}
+	case 1:
+		opt.Servers = []string{"n1", "n2", "n3", "n4", "n5"}
+		opt.Initial = map[string]string{"n1": "V", "n2": "V", "n3": "V", "n4": "N", "n5": "N"}
+	case 2:
+		opt.Servers = []string{"n1", "n2", "n3"}
+		opt.Initial = map[string]string{"n1": "V", "n2": "V", "n3": "N"}
+	}
+	c := NewCluster(t, opt)
+	c.Bootstrap()
+	c.StartAll()
+	c.WaitLeader(time.Second)
+	w := Weights{Deliver: 36, Reply: 30, Drop: 4, LoseResp: 4, Dup: 2, Tick: 10, TickMax: 15 * time.Millisecond,
+		Apply: 3, Verify: 12, Partition: 6, Heal: 3, Crash: 1, Restart: 3, MaxCrashes: 2}
+	c.RandomRun(w, steps)
+	c.converge(500 * time.Millisecond)
+	return c
+}
+
+// famRestart: crash at every kind of gate, restart, rejoin; plain / monotonic / commit-tracking stores.
+func famRestart(t *testing.T, seed int64, steps int) *Cluster {
+	opt := DefaultOptions(seed)
+	opt.Family = "restart"
+	opt.SnapThresh = uint64(3 + seed%4)
+	opt.SnapIntv = 25 * time.Millisecond
+	opt.Trailing = uint64(seed % 4)
+	opt.MaxAppend = 1 + int(seed%3)
+	opt.Mono = seed%4 == 1
+	opt.CommitTrack = seed%4 >= 2
+	c := NewCluster(t, opt)
+	c.Bootstrap()
+	c.StartAll()
+	w := Weights{Deliver: 40, Reply: 40, Drop: 2, LoseResp: 2, Tick: 12, TickMax: 20 * time.Millisecond,
+		Apply: 10, UserSnap: 2, Crash: 3, CrashAtWrite: 4, Shutdown: 1, Restart: 8, MaxCrashes: 12, MaxDown: 2, Partition: 1, Heal: 1}
+	c.RandomRun(w, steps)
+	c.converge(600 * time.Millisecond)
+	return c
+}
+
+// famLease: default-ratio timing; partitions at scheduler-chosen instants; fine ticks so the
+// step-down bound is evaluated with 1 ms resolution.
+func famLease(t *testing.T, seed int64, steps int) *Cluster {
+	opt := DefaultOptions(seed)
+	opt.Family = "lease"
+	opt.LeaseCheck = true
+	switch seed % 3 {
+	case 0: // default ratio: lease = heartbeat / 2
+		opt.Heartbeat, opt.Election, opt.Lease = 100*time.Millisecond, 100*time.Millisecond, 50*time.Millisecond
+	case 1:
+		opt.Heartbeat, opt.Election, opt.Lease = 100*time.Millisecond, 150*time.Millisecond, 100*time.Millisecond
+	default:
+		opt.Heartbeat, opt.Election, opt.Lease = 80*time.Millisecond, 80*time.Millisecond, 30*time.Millisecond
+	}
+	if seed%2 == 0 {
+		opt.Servers = []string{"n1", "n2", "n3", "n4", "n5"}
+		opt.Initial = map[string]string{"n1": "V", "n2": "V", "n3": "V", "n4": "N", "n5": "N"}
+	}
+	c := NewCluster(t, opt)
+	c.Bootstrap()
+	c.StartAll()
+	c.WaitLeader(2 * time.Second)
+	w := Weights{Deliver: 40, Reply: 40, Drop: 2, LoseResp: 2, Tick: 30, TickMax: 3 * time.Millisecond,
+		Apply: 2, Partition: 3, Heal: 2}
+	c.RandomRun(w, steps)
+	c.converge(1500 * time.Millisecond)
+	return c
+}
+
+// famLeaseQuiet: a long fault-free run: one leader, one term, indefinitely.
+func famLeaseQuiet(t *testing.T, seed int64, steps int) *Cluster {
+	opt := DefaultOptions(seed)
+	opt.Family = "leasequiet"
+	opt.ExpectStable = true
+	opt.Heartbeat, opt.Election, opt.Lease = 100*time.Millisecond, 100*time.Millisecond, 50*time.Millisecond
+	opt.CommitTO = 20 * time.Millisecond
+	if seed%2 == 0 {
+		opt.Servers = []string{"n1", "n2", "n3", "n4", "n5"}
+		opt.Initial = map[string]string{"n1": "V", "n2": "V", "n3": "V", "n4": "V", "n5": "N"}
+	}
+	c := NewCluster(t, opt)
+	c.Bootstrap()
+	c.StartAll()
+	l := c.WaitLeaderStable()
+	if l == "" {
+		t.Fatalf("no leader")
+	}
+	c.Tr.Emit("faultsstopped", "", nil) // there never were any
+	c.autoConsume = true
+	for i := 0; i < steps/40; i++ {
+		if i%5 == 0 {
+			c.Apply(l, 0)
+			c.Settle("client")
+		}
+		c.RunQuiet(time.Duration(100+c.Rng.Intn(400))*time.Millisecond, time.Duration(1+c.Rng.Intn(9))*time.Millisecond)
+	}
+	c.Quiesce(true)
+	return c
+}
+
+// WaitLeaderStable elects with every message delivered at once so that the first candidate wins.
+func (c *Cluster) WaitLeaderStable() string {
+	return c.WaitLeader(3 * time.Second)
+}
+
+// famPreVote: isolate a minority for a long time, heal; terms must not inflate, the leader must survive.
+func famPreVote(t *testing.T, seed int64, steps int) *Cluster {
+	opt := DefaultOptions(seed)
+	opt.Family = "prevote"
+	if seed%2 == 0 {
+		opt.Servers = []string{"n1", "n2", "n3", "n4", "n5"}
+		opt.Initial = map[string]string{"n1": "V", "n2": "V", "n3": "V", "n4": "V", "n5": "V"}
+	}
+	c := NewCluster(t, opt)
+	c.Bootstrap()
+	c.StartAll()
+	l := c.WaitLeader(2 * time.Second)
+	if l == "" {
+		t.Fatalf("no leader")
+	}
+	c.Apply(l, 0)
+	c.Settle("client")
+	c.RunQuiet(50*time.Millisecond, 5*time.Millisecond)
+	// isolate a minority that does not contain the leader
+	var others []string
+	for _, id := range opt.Servers {
+		if id != l {
+			others = append(others, id)
+		}
+	}
+	c.Rng.Shuffle(len(others), func(i, j int) { others[i], others[j] = others[j], others[i] })
+	k := 1
+	if len(opt.Servers) == 5 && seed%4 == 0 {
+		k = 2
+	}
+	iso := others[:k]
+	for _, a := range iso {
+		for _, b := range opt.Servers {
+			if a != b {
+				c.Net.SetBlocked(a, b, true)
+			}
+		}
+	}
+	c.Tr.Emit("part", "", M{"op": "isolate", "a": iso[0], "blocked": c.blockedJSON()})
+	// the majority keeps working; the minority times out again and again
+	dur := time.Duration(1+c.Rng.Intn(40)) * opt.Election
+	end := time.Now().Add(dur)
+	for time.Now().Before(end) {
+		c.DeliverAll(300)
+		if c.Rng.Intn(6) == 0 {
+			if ld := c.Leader(); ld != "" {
+				c.Apply(ld, 0)
+				c.Settle("client")
+			}
+		}
+		c.Tick(time.Duration(1+c.Rng.Intn(15)) * time.Millisecond)
+	}
+	c.Net.HealAll()
+	c.Tr.Emit("part", "", M{"op": "heal", "blocked": c.blockedJSON()})
+	c.Tr.Emit("faultsstopped", "", nil)
+	c.autoConsume = true
+	c.RunQuiet(400*time.Millisecond, 5*time.Millisecond)
+	c.runUntilConverged(12 * time.Second)
+	if ld := c.Leader(); ld != "" {
+		c.Apply(ld, 0)
+		c.Settle("client")
+		c.RunQuiet(100*time.Millisecond, 5*time.Millisecond)
+	}
+	c.Opt.ExpectStable = true
+	c.Quiesce(true)
+	return c
+}
+
+// famLifecycle: every kind of API call at scheduler-chosen points relative to role changes and Shutdown.
+func famLifecycle(t *testing.T, seed int64, steps int) *Cluster {
+	opt := DefaultOptions(seed)
+	opt.Family = "lifecycle"
+	opt.BatchApplyCh = seed%2 == 0
+	opt.MaxAppend = 2 + int(seed%3)
+	c := NewCluster(t, opt)
+	c.Bootstrap()
+	c.StartAll()
+	w := Weights{Deliver: 30, Reply: 30, Drop: 3, LoseResp: 3, Tick: 12, TickMax: 20 * time.Millisecond,
+		Apply: 12, Barrier: 4, Verify: 6, Member: 2, MaxMember: 4, Transfer: 2, UserSnap: 3,
+		Shutdown: 3, Restart: 4, MaxCrashes: 6, MaxDown: 2, OpOnDown: 6, Partition: 2, Heal: 2,
+		FsmGate: 2, FsmRelease: 4, SlowWrite: 2, ReleaseWrite: 4}
+	c.RandomRun(w, steps)
+	c.convergeNoExpect(300 * time.Millisecond)
+	return c
+}
+
+// famNotify: many leadership changes with a slow or fast NotifyCh consumer.
+func famNotify(t *testing.T, seed int64, steps int) *Cluster {
+	opt := DefaultOptions(seed)
+	opt.Family = "notify"
+	if seed%3 == 0 {
+		opt.NotifyBuf = 0
+	} else {
+		opt.NotifyBuf = 1 + int(seed%4)
+	}
+	c := NewCluster(t, opt)
+	c.Bootstrap()
+	c.StartAll()
+	w := Weights{Deliver: 36, Reply: 36, Drop: 3, LoseResp: 3, Tick: 14, TickMax: 25 * time.Millisecond,
+		Apply: 3, Partition: 6, Heal: 4, Transfer: 5, Consume: 10, Crash: 1, Restart: 3, MaxCrashes: 3}
+	c.RandomRun(w, steps)
+	c.converge(500 * time.Millisecond)
+	return c
+}
+
+// famRestore: user Restore with snapshots below / at / above the last index, racing with applies,
+// lagging or partitioned followers; both store flavours.
+func famRestore(t *testing.T, seed int64, steps int) *Cluster {
+	opt := DefaultOptions(seed)
+	opt.Family = "restore"
+	opt.Mono = seed%2 == 0
+	opt.MaxAppend = 1 + int(seed%3)
+	opt.Trailing = uint64(seed % 3)
+	c := NewCluster(t, opt)
+	c.Bootstrap()
+	c.StartAll()
+	w := Weights{Deliver: 40, Reply: 40, Drop: 2, LoseResp: 2, Tick: 12, TickMax: 20 * time.Millisecond,
+		Apply: 10, UserRestore: 3, Member: 1, MaxMember: 2, Transfer: 1, Partition: 2, Heal: 2, Crash: 1, Restart: 3, MaxCrashes: 2,
+		FsmGate: 1, FsmRelease: 3}
+	c.RandomRun(w, steps)
+	c.converge(800 * time.Millisecond)
+	return c
 }
 
 // famElect: election-heavy schedules: flapping partitions, delayed/duplicated votes, crashes between
@@ -67,10 +366,62 @@ func (c *Cluster) converge(d time.Duration) {
 	}
 	c.Settle("restart")
 	c.RunQuiet(d, 5*time.Millisecond)
+	// Replication to a server that was unreachable backs off up to 10ms*2^10 = 10.24s
+	// (replication.go backoff, maxFailureScale 12), so the honest bound for catch-up is that
+	// plus a few elections: keep a healthy network until converged, at most 12 s more.
+	c.runUntilConverged(12 * time.Second)
 	if l := c.Leader(); l != "" {
 		c.Apply(l, 0)
 		c.Settle("client")
 		c.RunQuiet(100*time.Millisecond, 5*time.Millisecond)
+		c.runUntilConverged(2 * time.Second)
+	}
+	c.Quiesce(true)
+}
+
+// converged: one leader, every running member of its configuration has applied its commit index.
+func (c *Cluster) converged() bool {
+	l := c.Leader()
+	if l == "" {
+		return false
+	}
+	nl := 0
+	for _, n := range c.Nodes {
+		if n.Up && n.Raft.State() == raft.Leader {
+			nl++
+		}
+	}
+	if nl != 1 {
+		return false
+	}
+	ld := c.byID[l].Raft
+	ci := ld.CommitIndex()
+	if ld.AppliedIndex() < ci {
+		return false
+	}
+	for _, s := range ld.VerifState().Latest.Servers {
+		n := c.byID[string(s.ID)]
+		if n == nil || !n.Up {
+			continue
+		}
+		if n.Raft.AppliedIndex() < ci {
+			return false
+		}
+	}
+	return c.PendingOps() == 0 || true
+}
+
+func (c *Cluster) runUntilConverged(budget time.Duration) {
+	end := time.Now().Add(budget)
+	// a catch-up livelock (the same transfer repeated for ever) consumes no virtual time:
+	// bound the number of network actions as well, so that it becomes an observation, not a hang
+	actions := 0
+	for time.Now().Before(end) && actions < 6000 {
+		actions += c.DeliverAll(100)
+		if c.converged() {
+			return
+		}
+		c.Tick(10 * time.Millisecond)
 	}
 }
 
